@@ -18,6 +18,7 @@ Events are JSON lists:
     ['field', lat, lon, h, date]            WMM.magnetic_field(lat, lon, h, date=date);   date 'omit': argument omitted
     ['reset', date]                         WMM.reset_coefficients(date)
     ['read', name]                          reading the property `name` (magnetic_elements | geodetic_vector)
+    ['other', date, lat, lon, h]            ANOTHER WMM object is built for `date` (other place, other frame) and evaluated once more; then THIS object answers magnetic_field(lat, lon, h) with date=None
     ['refuse', lat, lon, h, bad]            WMM.magnetic_field(lat, lon, h, date=bad) with a date the package refuses (before 2015, NaN, a string): raises, changes nothing
 
 Date tokens: None | float (decimal year) | 'day:YYYY-MM-DD' (a datetime.date) | 'omit' (magnetic_field only).
@@ -77,7 +78,7 @@ def _kind(ev):
     if ev[0] == 'ctor':
         la, lo, _ = ctor_place(ev)
         return 'ctor' if (la != 0.0 and lo != 0.0) else 'ctor(lat=0|lon=0)'
-    return ev[0]
+    return 'field' if ev[0] == 'other' else ev[0]
 
 
 def replay(hist):
@@ -102,6 +103,11 @@ def replay(hist):
             else:
                 s.none_run += 1
             s.place = (float(ev[1]), float(ev[2]), float(ev[3]))
+            s.query = (s.cur,) + s.place + (s.frame,)
+        elif ev[0] == 'other':
+            # ANOTHER object lives (built for ev[1], evaluated again), then THIS object is asked field(lat, lon, h, date=None): it answers for ITS date
+            s.none_run += 1
+            s.place = (float(ev[2]), float(ev[3]), float(ev[4]))
             s.query = (s.cur,) + s.place + (s.frame,)
         elif ev[0] == 'reset':
             s.cur = decimal(ev[1])
@@ -145,6 +151,8 @@ def fevent(ev):
         return f'field({p})' if ev[4] == 'omit' else f'field({p},date={fdate(ev[4])})'
     if ev[0] == 'reset':
         return f'reset({fdate(ev[1])})'
+    if ev[0] == 'other':
+        return f'other-object(date={ev[1]!r});field({fnum(ev[2])},{fnum(ev[3])},{fnum(ev[4])},date=None)'
     if ev[0] == 'refuse':
         return f'refused-field({fnum(ev[1])},{fnum(ev[2])},{fnum(ev[3])},date={ev[4]!r})'
     return f'read({ev[1]})'
@@ -164,6 +172,8 @@ def tags(hist):
         return t
     if ev[0] == 'reset':
         return f'op=reset(date={fdate(ev[1])})'
+    if ev[0] == 'other':
+        return f'op=field(date=None) after another object (date={ev[1]!r}) was built and evaluated'
     if ev[0] == 'refuse':
         return f'op=refused-field(date={ev[4]!r})'
     return f'op=read({ev[1]})'
